@@ -256,10 +256,11 @@ theorem wire_fields (c : Cfg) (m : Msg) (nts : Str) :
 
 /-- **C13**: for every well-formed device tree, every list of requests (any request line, MAN, ST,
     MX, reception time, requester, jitter choice) and every announcer run (any start, any duration,
-    stopped or not), the observations of the model satisfy the judge `ok`: every M-SEARCH is
-    answered with exactly the prescribed (ST, USN) multiset, once, to the requester, inside the MX
-    window, without raising; the announcements are the table round-robin, equally spaced, none
-    after the stop; the byebyes are the table; every USN begins with the described device's UDN;
+    stopped or not), the observations of the model satisfy the judge `ok`: no M-SEARCH makes the
+    handler raise; every datagram on the response socket is accounted for by a search of its
+    destination; every requester — however many searches it sends, also while answers to it are
+    pending — receives as a multiset exactly what its searches prescribe, distributable over their
+    MX windows; the announcements are the table round-robin, not ceasing, none after the stop; the byebyes are the table; every USN begins with the described device's UDN;
     every message is accepted by the listener model as that device at the description URL. -/
 theorem c13_ok {k : Consts} (hk : constsOk k = true) {t : DevTree} (hw : wfTree t = true) (cfg : Cfg)
     (hl : validLocation cfg.location = true) (target : Str) (searches : List SearchIn) (ann : Option AnnIn) :
@@ -268,12 +269,8 @@ theorem c13_ok {k : Consts} (hk : constsOk k = true) {t : DevTree} (hw : wfTree 
   have w := WF.of_wfTree hw
   unfold ok
   rw [Bool.and_eq_true, Bool.and_eq_true]
-  refine ⟨⟨?_, okAlives_run cfg target kk w hl searches ann⟩, okByebyes_run cfg target w hl searches ann⟩
-  rw [List.all_eq_true]
-  intro s hs
-  have : s ∈ searches.map (runSearch k cfg t) := hs
-  obtain ⟨i, _, rfl⟩ := List.mem_map.mp this
-  exact okSearch_run kk w cfg hl target searches ann i
+  exact ⟨⟨okResponses_run kk w cfg hl target searches ann, okAlives_run cfg target kk w hl searches ann⟩,
+    okByebyes_run cfg target w hl searches ann⟩
 
 /-- C13 for the constants `server.py` has now -/
 theorem c13_ok_gen {t : DevTree} (hw : wfTree t = true) (cfg : Cfg)
@@ -298,9 +295,9 @@ def exReq (st : String) (mx : Option String) : Req :=
   { line := mSearchLine, man := some ssdpDiscover, st := some st.toList, mx := mx.map String.toList }
 def exSearches : List SearchIn :=
   [⟨0, "a".toList, exReq "SSDP:ALL" (some "3"), some 17⟩,
-   ⟨500, "b".toList, exReq "URN:schemas-upnp-org:device:leaf:1" (some "10"), none⟩,
+   ⟨500, "a".toList, exReq "URN:schemas-upnp-org:device:leaf:1" (some "10"), none⟩,
    ⟨900, "c".toList, exReq "urn:schemas-upnp-org:service:C:3" none, none⟩,
-   ⟨950, "d".toList, exReq "uuid:EMB" (some "-1"), none⟩,
+   ⟨950, "a".toList, exReq "uuid:EMB" (some "-1"), none⟩,
    ⟨960, "e".toList, exReq "urn:schemas-upnp-org:service:c:0" (some "0"), none⟩]
 
 /-- the hypotheses of `c13_ok` hold for a root with an embedded device that itself embeds a device
@@ -314,12 +311,13 @@ def exSearches : List SearchIn :=
 example :
     wfTree exTree = true ∧ validLocation exCfg.location = true ∧ constsOk { genConsts with alwaysRoot := true } = true ∧
     (let c := runCase genConsts exCfg "t".toList exTree exSearches (some ⟨100, 100 + 34 * 30000 + 5, true⟩)
-     c.searches.map (fun s => (s.sends.length, s.sends.map (·.time) |>.head?))
+     exSearches.map (fun i => ((sendsOf genConsts exCfg exTree i).length, (sendsOf genConsts exCfg exTree i).map (·.time) |>.head?))
        = [(11, some 117), (1, some 5249), (0, none), (1, some 950), (2, some 960)]
+     ∧ c.responses.length = 15
      ∧ c.alives.length = 35 ∧ c.byebyes.length = 11 ∧ c.stopTime = some (100 + 34 * 30000 + 5)
-     ∧ (c.searches.map fun s => s.sends.map fun m => (String.ofList m.st, String.ofList m.usn))[1]?
+     ∧ (exSearches.map fun i => (sendsOf genConsts exCfg exTree i).map fun m => (String.ofList m.st, String.ofList m.usn))[1]?
          = some [("urn:schemas-upnp-org:device:leaf:1", "uuid:leaf::urn:schemas-upnp-org:device:Leaf:3")]
-     ∧ (c.searches.map fun s => s.sends.map fun m => String.ofList m.usn)[4]?
+     ∧ (exSearches.map fun i => (sendsOf genConsts exCfg exTree i).map fun m => String.ofList m.usn)[4]?
          = some ["uuid:emb::urn:schemas-upnp-org:service:C:2", "uuid:leaf::urn:schemas-upnp-org:service:C:2"])
     ∧ (buildResponses exTree true "nothing".toList).map (fun m => String.ofList m.usn) = ["UUID:Root::upnp:rootdevice"] := by
   refine ⟨by decide +kernel, by decide +kernel, by decide +kernel, by decide +kernel, by decide +kernel⟩
